@@ -556,6 +556,46 @@ class StmtsMixin:
             for target in speclang.split_top(cl.text, ','):
                 if target.strip():
                     self.havoc_target(h, SpecEnv(h, {}, h.entry), speclang.parse_expr(target.strip()))
+        # ghost variables assigned by the contracts of the calls in the body, or by `after` / `oncall` clauses and
+        # hints of inner loops of the function under verification that fire on them, are havocked as well
+        gv = set()
+        def ghost_targets(text):
+            return set(re.findall(r'\bghost\s+(\w+)\s*=', text))
+        fc = self.frame.contract if self.frame else None
+        for c in calls:
+            if c[0] != 'call':
+                continue
+            f = c[1]['Fun']
+            while f['_'] == 'ParenExpr': f = f['X']
+            key, _ = self.callee_key_static(f)
+            nm = f['Sel']['Name'] if f['_'] == 'SelectorExpr' else f.get('Name')
+            ct = None
+            if key:
+                for pref in ('', 'natives:', 'goroot:'):
+                    ct = ct or self.contracts.get(pref + key) or self.externs.get(pref + key)
+            if ct is not None:
+                for cl in ct.get('ghost'):
+                    gv |= ghost_targets('ghost ' + cl.text)
+            if fc:
+                for cl in fc.get('after'):
+                    m = re.match(r'(\S+?)\s*:\s*(.*)$', cl.text, re.S)
+                    if m and key and (key == m.group(1) or key.endswith('.' + m.group(1)) or key.endswith('/' + m.group(1))):
+                        gv |= ghost_targets(m.group(2))
+                for cl in fc.get('oncall'):
+                    m = re.match(r'(\w+)\s*:\s*(.*)$', cl.text, re.S)
+                    if m and (m.group(1) == nm or (key and re.split(r'[./]', key)[-1] == m.group(1))):
+                        gv |= ghost_targets(m.group(2))
+        own = self.loop_id(s)
+        for no2, sp2 in self.inner_loop_specs(s):
+            for cl in sp2.get('hint', []):
+                gv |= ghost_targets(cl.text)
+        for cl in spec.get('hint', []):
+            m = re.match(r'(\w+)\s*:\s*(.*)$', cl.text, re.S)
+            if m and m.group(1) not in ('init', 'head', 'exit'):
+                gv |= ghost_targets(m.group(2))
+        for name in sorted(gv):
+            if ('ghostvar', name) in h.ghost:
+                self.havoc_target(h, SpecEnv(h, {}, h.entry), ('id', name))
         for c in calls:
             if c[0] == 'call':
                 key, _ = self.callee_key_static(c[1]['Fun'])
@@ -563,6 +603,24 @@ class StmtsMixin:
                 if ct is not None and ct.get('assigns') and not any(x.text.strip() == 'nothing' for x in ct.get('assigns')):
                     if not spec.get('assigns'):
                         raise Unsupported('loop calls %s which assigns state: the loop needs an assigns clause' % key)
+
+    def inner_loop_specs(self, s):
+        out = []
+        def walk(n):
+            if isinstance(n, list):
+                for x in n: walk(x)
+            elif isinstance(n, dict):
+                if n.get('_') in ('ForStmt', 'RangeStmt') and n is not s:
+                    no = self.loop_id(n)
+                    if no is not None and str(no) in self.frame.loop_specs:
+                        out.append((no, self.frame.loop_specs[str(no)]))
+                if n.get('_') == 'FuncLit':
+                    return
+                for k, v in n.items():
+                    if k not in ('obj', 'sel') and isinstance(v, (dict, list)):
+                        walk(v)
+        walk(s.get('Body'))
+        return out
 
     def slice_rebased(self, loopnode, oid):
         """does the loop assign the slice variable from anything but a re-slice of itself?"""
